@@ -8,7 +8,9 @@ hint = sys.argv[4] if len(sys.argv) > 4 else ""
 P = {json.loads(l)["id"]: json.loads(l) for l in open("/verif/properties.jsonl")}
 p = P[prop]
 wt = "/tmp/wt_%s%s" % (prop, suffix)
-subprocess.run(["git", "-C", "/repo", "worktree", "add", "--detach", wt], check=True, stdout=subprocess.DEVNULL, stderr=subprocess.DEVNULL)
+import os
+if not os.path.isdir(wt):
+    subprocess.run(["git", "-C", "/repo", "worktree", "add", "--detach", wt], check=True, stdout=subprocess.DEVNULL, stderr=subprocess.DEVNULL)
 demo_dir = {"watchexec": "crates/lib", "watchexec-supervisor": "crates/supervisor", "ignore-files": "crates/ignore-files",
             "project-origins": "crates/project-origins", "watchexec-cli": "crates/cli", "watchexec-filterer-ignore": "crates/filterer/ignore",
             "watchexec-filterer-globset": "crates/filterer/globset", "watchexec-events": "crates/events", "watchexec-signals": "crates/signals"}[pkg]
